@@ -581,6 +581,10 @@ func findParamLen(s string, segment *routeSegment, slashOptional bool) int {
 	}
 
 	if segment.Length != 0 && len(s) >= segment.Length {
+		// a parameter that is not greedy never spans a slash, also when its length is fixed (/:a:b)
+		if !segment.IsGreedy && strings.IndexByte(s[:segment.Length], slashDelimiter) != -1 {
+			return 0
+		}
 		return segment.Length
 	} else if segment.IsGreedy {
 		// Search the parameters until the next constant part
